@@ -129,7 +129,11 @@ class Recorder:
     def err(self, name: str, value: float) -> None:
         """Track the worst observed error of a toleranced comparison (for calibration/evidence)."""
         v = float(value)
-        if v == v and v > self.max_err.get(name, -1.0):
+        if v != v:
+            # a NaN difference compares False with every tolerance ("err > tol" would let it pass silently): the compared
+            # quantity is not a number, which no toleranced property allows
+            raise Violation("not_a_number:" + name, f"the difference tracked as '{name}' is NaN: one of the compared quantities is not a number")
+        if v > self.max_err.get(name, -1.0):
             self.max_err[name] = v
 
     # -- merge ---------------------------------------------------------------------------------
